@@ -316,6 +316,10 @@ func (ru *running) runPhase(g *gen, rounds, steps int) {
 		{&post{Path: "/config", Body: map[string]interface{}{"cluster-version": "abc"}, Class: "cluster-version=out:unparsable", site: "POST /config", out: true}, kvx.NoFault},
 		{&post{Path: "/config", Body: map[string]interface{}{"max-replicas": 5}, Class: "max-replicas=in", site: "POST /config"}, kvx.FailBefore},
 		{&post{Path: "/config", Body: map[string]interface{}{"max-replicas": 5}, Class: "max-replicas=in", site: "POST /config"}, kvx.NoFault},
+		// an accepted "store-limit": null and then the raft cluster's own store-limit update
+		{&post{Path: "/config/schedule", Body: map[string]interface{}{"store-limit": nil}, Class: "store-limit=in:null", site: "POST /config/schedule"}, kvx.NoFault},
+		{&post{Path: "/store/1/limit", Body: map[string]interface{}{"type": "add-peer", "rate": 15}, Class: "add-peer after store-limit=null", site: "POST /store/{id}/limit", shape: "served-store-limit-is-null"}, kvx.NoFault},
+		{&post{Path: "/config/schedule", Body: map[string]interface{}{"store-limit": map[string]interface{}{}}, Class: "store-limit=in:empty", site: "POST /config/schedule"}, kvx.NoFault},
 	} {
 		ru.caseNo++
 		st := ru.httpStep(d.p)
